@@ -3,6 +3,8 @@ package main
 import (
 	"fmt"
 	"go/types"
+	"os"
+	"runtime/debug"
 	"sort"
 	"strings"
 
@@ -362,7 +364,7 @@ func (r *Run) termOf(v *Val) string {
 		return "0"
 	}
 	if v.T == "" {
-		r.toolErr("value without term (kind %d, type %v)", v.K, v.Ty)
+		r.toolErr("value without term (kind %d, type %v)", v.K, v.Ty); if os.Getenv("GOVC_TRACE") != "" { debug.PrintStack() }
 		return "0"
 	}
 	return v.T
